@@ -43,6 +43,48 @@ def accept_query(comp, layout, expect_set, key, d):
     return bad
 
 
+def accept_seq_query(comp, layout, seq, key, d):
+    """solver, one query set per position i of the spelled sequence: after the concrete bytes seq[:i] (fed from the start state), byte b
+    is consumed without FAIL iff b == seq[i].  -> None or (i, wrongly treated byte)"""
+    m = absm.Machine(comp.post, layout)
+    solver = z3.Solver(); solver.set('timeout', 20000)
+    data, inv = layout.symbolic()
+    st = comp.post.start
+    for i, x in enumerate(seq):
+        b = z3.BitVec('chunk_%d' % i, 8)
+        paths = symx.explore(lambda ctx: m.dispatch(ctx, st, b, data), solver, assumptions=inv)
+        want = b == x
+        bad, nxt = None, None
+        for pc, r in paths:
+            acc = r.code in ('OK', 'DONE') and r.consumed
+            d['obligations'] += 1
+            solver.push(); solver.add(*inv, *pc, want if not acc else z3.Not(want))
+            res = solver.check(); d['queries'] += 1
+            if res == z3.unsat:
+                d['discharged'] += 1
+            elif res == z3.sat:
+                bad = solver.model().eval(b, model_completion=True).as_long()
+            else:
+                d['inconclusive'].append(key)
+            solver.pop()
+            if acc and r.code == 'OK':
+                solver.push(); solver.add(*inv, *pc, want)
+                if solver.check() == z3.sat:
+                    nxt = r
+                d['queries'] += 1
+                solver.pop()
+        if bad is not None:
+            d['nontrivial'].append(key)
+            return i, bad
+        if nxt is None:
+            if i != len(seq) - 1:
+                d['inconclusive'].append(key + ' [no successor state after position %d]' % i)
+            break
+        st, data = nxt.state, nxt.data
+    d['nontrivial'].append(key)
+    return None
+
+
 def store_query(comp, expect, via, key, d):
     """llsym: after start() (default) or after feeding 'a' (assignment), s holds exactly `expect` (bytes) with counter len(expect)"""
     L = l3mod.L3(comp)
@@ -116,6 +158,21 @@ def work(job):
     hexpairs = ' '.join('%02x' % x for x in bs)
     progs.append(('default/binary', f'out str[6] s = "{hexpairs}"b; parser {{ "a"; }}', 'default', bs))
     progs.append(('default/binary-exact-fit', f'out unterminated str[{len(bs)}] s = "{hexpairs}"b; parser {{ "a"; }}', 'default', bs))
+    if len(bs) > 1:
+        # multi-byte literals as matches (every position: accepted iff it is the spelled byte, then exactly the 'z' that follows) and
+        # binary strings whose hex pairs are grouped into words -- all bytes in one word, and a first byte alone followed by one word --
+        # as match and as default: the bytes are the pairs, whatever the grouping (a 00 pair at the start of a word is a byte)
+        joined = ''.join('%02x' % x for x in bs)
+        split1 = '%02x ' % bs[0] + ''.join('%02x' % x for x in bs[1:])
+        seq = tuple(bs) + (ord('z'),)
+        progs.append(('match-seq/hex', f'parser {{ "{lit("hex")}"; "z"; }}', 'accept_seq', seq))
+        progs.append(('binary-seq/pairs', f'parser {{ "{hexpairs}"b; "z"; }}', 'accept_seq', seq))
+        progs.append(('binary-seq/one-word', f'parser {{ "{joined}"b; "z"; }}', 'accept_seq', seq))
+        progs.append(('binary-seq/upper-one-word', f'parser {{ "{joined.upper()}"b; "z"; }}', 'accept_seq', seq))
+        progs.append(('default/binary-one-word', f'out str[6] s = "{joined}"b; parser {{ "a"; }}', 'default', bs))
+        if len(bs) > 2:
+            progs.append(('binary-seq/byte-then-word', f'parser {{ "{split1}"b; "z"; }}', 'accept_seq', seq))
+            progs.append(('default/binary-byte-then-word', f'out str[6] s = "{split1}"b; parser {{ "a"; }}', 'default', bs))
     if len(bs) == 1:
         progs.append(('binary', f'parser {{ "{bs[0]:02x}"b; "z"; }}', 'accept', {bs[0]}))
         progs.append(('binary-upper', f'parser {{ "{bs[0]:02X}"b; "z"; }}', 'accept', {bs[0]}))
@@ -138,6 +195,13 @@ def work(job):
                 if bad is not None:
                     finds.append({'obligation': f'C15/l23/{name}', 'bytes': list(bs), 'context': name, 'source': src, 'what': f'literal {name} spelled for {list(bs)}: byte {bad} is accepted/rejected wrongly',
                                   'detail': f'byte {bad}'})
+            elif what == 'accept_seq':
+                bad = accept_seq_query(comp, layout, exp, key, d)
+                if bad is not None:
+                    i, m_ = bad
+                    finds.append({'obligation': f'C15/l23/{name}', 'bytes': list(bs), 'context': name, 'source': src, 'prefix': list(exp[:i]), 'expected_next': exp[i],
+                                  'what': f'literal {name} spelled for {list(bs)}: after {list(exp[:i])} byte {m_} is accepted/rejected wrongly (the spelled sequence continues with {exp[i]})',
+                                  'detail': f'byte {m_}'})
             elif what in ('assign', 'default', 'append'):
                 probs = store_query(comp, exp, what, key, d)
                 for pr in probs[:1]:
@@ -173,6 +237,10 @@ def replay_accept(f):
     if comp.verdict != 'ok':
         return None
     m = int(f['detail'].split()[-1])
+    if 'prefix' in f:      # multi-byte literal: the real DFA on prefix + byte; accepted iff it is the byte the spelling continues with
+        st = comp.dfa.simulate([chr(x) for x in f['prefix']] + [chr(m)])
+        ok = st is not None and st is not comp.dctx.generic_fail_state
+        return {'reproduced': ok != (m == f['expected_next']), 'simulate': str(st)}
     st = comp.dfa.simulate([chr(m)])
     ok = st is not None and st is not comp.dctx.generic_fail_state
     return {'reproduced': ok != (m in f['bytes'] or (f['context'].startswith('casei') and chr(m).lower() == chr(f['bytes'][0]).lower())), 'simulate': str(st)}
@@ -181,7 +249,7 @@ def replay_accept(f):
 def run_into(run, tier):
     rnd = random.Random(chk.seed())
     vals = list(range(256)) if tier == 'thorough' else sorted(set([0, 1, 8, 9, 10, 13, 31, 32, 34, 39, 47, 48, 57, 65, 90, 92, 97, 102, 122, 126, 127, 128, 129, 191, 192, 223, 254, 255] + rnd.sample(range(256), 16)))
-    pairs = [(1, 97), (0, 48), (127, 70), (200, 201), (97, 98), (255, 0), (10, 13), (65, 128)] + ([(rnd.randrange(256), rnd.randrange(256)) for _ in range(40)] if tier == 'thorough' else [])
+    pairs = [(1, 97), (0, 48), (127, 70), (200, 201), (97, 98), (255, 0), (10, 13), (65, 128), (0, 0), (0, 1, 2), (0, 0, 65), (65, 0, 66), (10, 0, 0, 255)] + ([(rnd.randrange(256), rnd.randrange(256)) for _ in range(40)] if tier == 'thorough' else [])
     jobs = [(v, tier) for v in vals] + [(p, tier) for p in pairs]
     ctx = mp.get_context('fork')
     with ctx.Pool(chk.ncpu(), maxtasksperchild=16) as pool:
@@ -200,5 +268,7 @@ def run_into(run, tier):
                 run.harness_error(f"model does not reproduce: {f['obligation']} {f['what']} {rep}")
     run.functions += ['DirectMatch / CaseDirectMatch / BinaryRegexMatch conversion of literals (compiled DFA, symbolic input byte)',
                       'emitted SetToStr / default memcpy (CodegenCtx._generate_set_string, _escape_string) executed by llsym']
-    run.bounds['l23'] = {'single_bytes': len(vals), 'byte_pairs': len(pairs), 'contexts': 'match, casei, binary string (both cases), binary regex, string assignment, string default (text and binary spelling, also exact fit), char constant append',
+    run.bounds['l23'] = {'single_bytes': len(vals), 'byte_pairs': len(pairs), 'contexts': 'match, casei, binary string (both cases), binary regex, string assignment, string default (text and binary spelling, also exact fit), char constant append; '
+                         'for the multi-byte literals: match position by position (text, binary pairs, binary pairs grouped into one word / a byte then a word, either case) and '
+                         'default spelled as one word / a byte then a word',
                          'input_byte': 'symbolic 0..255'}
